@@ -74,6 +74,7 @@ ObservedSuccess(ev) == IsHash(AbsOut(ev.out, ev.outk)) /\ ev.ret = "out"
 SameRequest(a, b) == a.ph = b.ph /\ a.s = b.s /\ a.pnull = b.pnull /\ a.snull = b.snull
 KeyFor(ev) ==
   IF ev.kprev > 0 /\ ev.kprev < l /\ IsHashEv(T[ev.kprev].e) /\ SameRequest(T[ev.kprev], ev)
+     /\ T[ev.kprev].rel = ev.rel            \* (another library's graph is compared by C02_Released)
      /\ ObservedSuccess(T[ev.kprev])
   THEN T[ev.kprev].out ELSE ev.out
 
@@ -142,7 +143,10 @@ C_SameKeySame(ev) ==
 \* RELEASED libcrypt.so.1 (events with rel = 1, recorded from the released library or loaded from
 \* /verif/golden); a call of the tree under test must reproduce it byte for byte.
 C02_Released(ev) ==
-  (ev.rel = 0 /\ ev.kprev > 0 /\ ev.kprev < l /\ IsHashEv(T[ev.kprev].e) /\ T[ev.kprev].rel = 1 /\ SameRequest(T[ev.kprev], ev))
+  (ev.rel = 0 /\ ev.kprev > 0 /\ ev.kprev < l /\ IsHashEv(T[ev.kprev].e) /\ T[ev.kprev].rel = 1 /\ SameRequest(T[ev.kprev], ev)
+     /\ SpecOutcome(ev).k # "fail"         \* (a method disabled in this configuration is specified to be refused)
+     \* the same method computes it in the reference library (bigcrypt and descrypt share their setting space)
+     /\ S!Effective(SpecOutcome(ev).m, ev.pl, Len(ev.s)) = S!Effective(S!Dispatch(S!AllMethods, ev.s), ev.pl, Len(ev.s)))
   => (ev.out = T[ev.kprev].out /\ ObservedSuccess(ev) = ObservedSuccess(T[ev.kprev]))
 C18_CanHash(ev) == (ObservedSuccess(ev) /\ ev.snull = 0) => S!Checksalt(Enabled, ev.s) # S!SALT_INVALID
 C_Literal(ev) == ev.gs = 1 => (ObservedSuccess(ev) /\ S!StartsWith(ev.out, ev.s))
@@ -255,6 +259,9 @@ Step ==
                                   ELSE ev.rnull = 0 /\ ev.r = S!PrefixOf[S!DefaultMethod(Enabled)]
                                        /\ S!Checksalt(Enabled, ev.r) = S!SALT_OK)
                                THEN {} ELSE {V("C18", "Preferred")})
+                       \* CRYPT_GENSALT_IMPLEMENTS_DEFAULT_PREFIX of the generated header reflects the same fact
+                       \cup (IF T[1].e = "config" /\ T[1].macro_default_prefix # (IF S!DefaultMethod(Enabled) = "none" THEN 0 ELSE 1)
+                             THEN {V("C19", "DefaultPrefixMacro")} ELSE {})
         /\ UNCHANGED <<st, div, cnt>>
      ELSE IF ev.e = "Reset" THEN
         /\ st' = [x \in {} |-> FreshObj]
